@@ -775,6 +775,28 @@ fn c14_scenarios(tier: Tier) -> Vec<Scenario> {
             Step::Settle,
         ],
     });
+    // the proof arrives (answer to a notification's own request, held by the tower) while the retrier is in the middle of a
+    // batch: what is left of the batch is not sent. (The request the retrier has in flight at that moment and the one right
+    // after it fall into the oracle's allowance for held answers; the tower is slow to answer that one, the fourth comes late.)
+    v.push(Scenario {
+        name: "misbehaviour-proven-while-the-retrier-is-in-the-middle-of-a-batch".into(),
+        towers: 1,
+        opts: RetryOpts { max_retry_time: 8, auto_retry_delay: 30, max_retry_interval: 1 },
+        steps: vec![
+            Step::Register(0),
+            Step::Script(0, add.clone(), vec![Reply::HoldThenWrongKey, Reply::Hangup, Reply::Hold, Reply::Slow(900), Reply::Slow(900)]),
+            Step::RevokeNoWait(1),
+            Step::WaitInFlight(0),
+            Step::Revoke(2),
+            Step::Revoke(3),
+            Step::Revoke(4),
+            // (the retry manager starts the retrier within a second; its first request is held as well)
+            Step::Sleep(2500),
+            Step::Release(0),
+            Step::Sleep(3000),
+            Step::Settle,
+        ],
+    });
     // two notifications being handled at once: the first waits for a slow tower X; the second gets another key's signature
     // from tower Y, which is flagged; the first then goes on to Y - with the status it read before Y was flagged? (towers
     // are visited in an order the harness does not control: both assignments of the roles, one of them is the telling one)
